@@ -2,7 +2,7 @@
    per-step simulation of unit C18arr (C18arr/Proofs.v step_sim, invariant Inv). *)
 From Coq Require Import Arith NArith List Bool Lia.
 From Morfuse Require Import Base.Arr Base.ListX C18arr.Model C18arr.Spec C18arr.ProofsInv
-     C18arr.Proofs C17.Model C17.Spec.
+     C18arr.ProofsResize C18arr.ProofsOps C18arr.Proofs C17.Model C17.Spec.
 Import ListNotations.
 Local Open Scope N_scope.
 
@@ -217,22 +217,267 @@ Section Main.
     destruct H as [s0 [Hs HI]]. rewrite Hs. cbn [bind]. intro He. apply (exec_from_total predef ops s0 l0 l HI He).
   Qed.
 
-  (* ---- the accumulator versions used by the driver ---------------------------------------- *)
-  Lemma trace_acc_ok predef : forall ops s acc,
-    map fst (trace_acc hash predef s ops acc) = rev (map fst acc) ++ run_from hash predef s ops.
+  (* ---- the fuel-threaded functions the driver executes ----------------------------------- *)
+  (* the loops that carry their binary counter along are the loops of C18arr/Model.v *)
+  Lemma rehash_buckets_q_eq fuel oldt : forall i s,
+    rehash_buckets_q hash fuel i (N.of_nat i) oldt s = rehash_buckets hash fuel i oldt s.
   Proof.
-    induction ops as [|o ops IH]; intros s acc; cbn [trace_acc run_from].
+    induction i as [|j IH]; intro s; cbn [rehash_buckets_q rehash_buckets]; [reflexivity|].
+    rewrite Nat2N.inj_succ, N.pred_succ.
+    destruct (rehash_chain hash fuel s (get (cells s) (oldt + N.of_nat j))); cbn [bind]; [apply IH|reflexivity|reflexivity].
+  Qed.
+
+  Lemma copy_rev_q_eq oldr : forall i s,
+    copy_rev_q i (N.of_nat i) oldr s = copy_rev i oldr s.
+  Proof.
+    induction i as [|j IH]; intro s; cbn [copy_rev_q copy_rev]; [reflexivity|].
+    rewrite Nat2N.inj_succ, N.pred_succ. apply IH.
+  Qed.
+
+  Lemma resize_q_eq fuel s n : resize_q hash fuel s n = resize hash fuel s n.
+  Proof.
+    unfold resize_q, resize. destruct (n =? 0); [reflexivity|].
+    rewrite <- (N2Nat.id (tlen s)) at 2. rewrite rehash_buckets_q_eq.
+    match goal with |- bind ?x _ = bind ?x _ => destruct x; cbn [bind]; [|reflexivity|reflexivity] end.
+    rewrite <- (N2Nat.id (N.min (tlen s) n)) at 2. rewrite copy_rev_q_eq. reflexivity.
+  Qed.
+
+  Lemma add_key_q_eq fuel s k : add_key_q hash fuel s k = add_key hash fuel s k.
+  Proof.
+    unfold add_key_q, add_key, add_new_q, add_new, rehash. rewrite resize_q_eq. reflexivity.
+  Qed.
+
+  (* the same step with C18arr's own functions *)
+  Definition stepf0 (fuel : nat) (s : st) (o : op) : out (st * res) :=
+    match o with
+    | OAdd k => bind (add_key hash fuel s k)
+                     (fun p => Ok (fst p, RIdx (get (eidx (fst p)) (snd p))))
+    | OFind k => bind (find_index hash fuel s k) (fun i => Ok (s, RIdx i))
+    | OAt i => bind (at_index s i) (fun v => Ok (s, RKey v))
+    | OResize n =>
+        if (n =? 0) || (n <? cnt s) || (max_len <? n) then Undef
+        else bind (resize hash fuel s n) (fun s' => Ok (s', RUnit))
+    | OClear => bind (clear fuel s) (fun s' => Ok (s', RUnit))
+    | _ => step hash s o
+    end.
+
+  Lemma stepf_eq fuel s o : stepf hash fuel s o = stepf0 fuel s o.
+  Proof.
+    destruct o; cbn [stepf stepf0]; try reflexivity.
+    - rewrite add_key_q_eq. reflexivity.
+    - rewrite resize_q_eq. reflexivity.
+  Qed.
+
+  (* with the fuel C18arr's step computes it IS that step *)
+  Lemma stepf_step s o : stepf hash (fuel_of s) s o = step hash s o.
+  Proof. rewrite stepf_eq. destruct o; reflexivity. Qed.
+
+  (* C18arr's step_sim, for an arbitrary sufficient fuel *)
+  Lemma stepf_sim fuel s ks o :
+    Inv hash s ks -> (length ks <= fuel)%nat -> not_remove o ->
+    match spec_step (map Some ks) o with
+    | None => stepf hash fuel s o = Undef
+    | Some p => exists s' ks', stepf hash fuel s o = Ok (s', snd p) /\ fst p = map Some ks' /\ Inv hash s' ks'
+    end.
+  Proof.
+    intros HI Hf Hnr. rewrite stepf_eq.
+    destruct o as [k|k|i|n| | | |k]; try exact (step_sim hash s ks _ HI Hnr);
+      destruct HI as [ents I]; pose proof (i_cnt _ _ _ _ I) as Hcnt; cbn [spec_step stepf0].
+    - (* add *)
+      unfold add_key.
+      destruct (ProofsOps.find_chain_ok hash s ks ents fuel k I Hf) as [r [Hr Hs]]. rewrite Hr. cbn [bind].
+      destruct r as [x|].
+      + destruct Hs as [i [Hx Hk]]. unfold index_of.
+        rewrite (index_from_nth k ks 1 i (i_ndk _ _ _ _ I) Hk).
+        destruct (N.eqb_spec (1 + N.of_nat i) 0) as [E|_]; [lia|].
+        exists s, ks. cbn [bind fst snd]. split; [|split; [reflexivity|exists ents; exact I]].
+        destruct (i_ent _ _ _ _ I i x Hx) as [_ [_ [Hidx _]]]. rewrite Hidx. do 3 f_equal. lia.
+      + unfold index_of. rewrite (index_from_notin k ks 1 Hs). cbn [N.eqb].
+        pose proof (ProofsOps.add_new_ok hash s ks ents fuel k I Hs Hf) as Han.
+        destruct (len (map Some ks) <? max_len).
+        * destruct Han as [s' [e [Ha [I' Hidx]]]]. rewrite Ha. cbn [bind fst snd].
+          exists s', (ks ++ [k]). split; [rewrite Hidx; reflexivity|].
+          split; [rewrite map_app; reflexivity|exists (ents ++ [e]); exact I'].
+        * rewrite Han. reflexivity.
+    - (* find *)
+      rewrite (ProofsOps.find_index_ok hash s ks ents fuel k I Hf). cbn [bind fst snd].
+      exists s, ks. split; [reflexivity|]. split; [reflexivity|exists ents; exact I].
+    - (* resize (operator[] takes no fuel: that case is step_sim itself) *)
+      rewrite len_map, <- Hcnt.
+      destruct ((n =? 0) || (n <? cnt s) || (max_len <? n)) eqn:G; [reflexivity|].
+      apply orb_false_iff in G. destruct G as [G G3]. apply orb_false_iff in G. destruct G as [G1 G2].
+      apply N.eqb_neq in G1. apply N.ltb_ge in G2. apply N.ltb_ge in G3.
+      destruct (ProofsResize.resize_ok hash s ks ents n fuel I) as [s' [Hr [I' _]]]; try lia.
+      rewrite Hr. cbn [bind fst snd]. exists s', ks.
+      split; [reflexivity|]. split; [reflexivity|exists ents; exact I'].
+    - (* clear *)
+      destruct (ProofsOps.clear_ok hash s ks ents fuel I Hf) as [s' [Hr [I' _]]].
+      rewrite Hr. cbn [bind fst snd]. exists s', []. split; [reflexivity|].
+      split; [reflexivity|exists []; exact I'].
+  Qed.
+
+  Lemma s_intern_len l t p : s_intern l t = Some p -> (length (fst p) <= S (length l))%nat.
+  Proof.
+    unfold s_intern. destruct (id_of t l =? 0).
+    - destruct (size l <? max_len); [|discriminate]. intros [= <-]. cbn [fst]. rewrite app_length. cbn [length]. lia.
+    - intros [= <-]. cbn [fst]. lia.
+  Qed.
+
+  Lemma s_add_all_len ts : forall l l', s_add_all l ts = Some l' -> (length l' <= length l + length ts)%nat.
+  Proof.
+    induction ts as [|t ts IH]; intros l l' H; cbn [s_add_all length] in *.
+    - injection H as <-. lia.
+    - destruct (s_intern l t) as [p|] eqn:E; [|discriminate].
+      pose proof (s_intern_len l t p E). pose proof (IH _ _ H). lia.
+  Qed.
+
+  Lemma s_init_const_len predef l l' :
+    s_init_const predef l = Some l' -> (length l' <= length l + length predef)%nat.
+  Proof.
+    unfold s_init_const, s_presize. destruct (size l + N.of_nat (length predef) <=? max_len); [|discriminate].
+    apply s_add_all_len.
+  Qed.
+
+  Lemma internf_sim fuel s l t :
+    Inv hash s l -> (length l <= fuel)%nat ->
+    match s_intern l t with
+    | None => stepf hash fuel s (OAdd t) = Undef
+    | Some p => exists s', stepf hash fuel s (OAdd t) = Ok (s', snd p) /\ Inv hash s' (fst p)
+    end.
+  Proof.
+    intros HI Hf. pose proof (stepf_sim fuel s l (OAdd t) HI Hf I) as H.
+    cbn [spec_step] in H. rewrite index_of_id_of, len_size in H. unfold s_intern.
+    destruct (id_of t l =? 0).
+    - destruct (size l <? max_len); [|exact H].
+      destruct H as [s' [ks' [Hs [Hp HI']]]]. cbn [fst snd] in *.
+      rewrite map_some_snoc in Hp. apply map_some_inj in Hp. subst ks'.
+      exists s'. split; assumption.
+    - destruct H as [s' [ks' [Hs [Hp HI']]]]. cbn [fst snd] in *.
+      apply map_some_inj in Hp. subst ks'. exists s'. split; assumption.
+  Qed.
+
+  Lemma presizef_sim fuel s l n :
+    Inv hash s l -> (length l <= fuel)%nat ->
+    match s_presize l n with
+    | None => presizef hash fuel s n = Undef
+    | Some l' => exists s', presizef hash fuel s n = Ok s' /\ Inv hash s' l'
+    end.
+  Proof.
+    intros HI Hf. pose proof (inv_cnt s l HI) as Hc. pose proof (inv_tlen s l HI) as Ht.
+    unfold presizef, s_presize.
+    destruct (N.ltb_spec (tlen s) (cnt s + n)) as [Hg|Hg].
+    - pose proof (stepf_sim fuel s l (OResize (cnt s + n)) HI Hf I) as H.
+      cbn [spec_step] in H. rewrite len_size in H.
+      destruct (N.eqb_spec (cnt s + n) 0) as [E|_]; [lia|].
+      destruct (N.ltb_spec (cnt s + n) (size l)) as [E|_]; [lia|].
+      cbn [orb] in H. rewrite <- Hc.
+      destruct (N.ltb_spec max_len (cnt s + n)) as [E|E];
+        destruct (N.leb_spec (cnt s + n) max_len) as [E'|E']; try lia; cbv iota in H.
+      + rewrite H. reflexivity.
+      + destruct H as [s' [ks' [Hs [Hp HI']]]]. cbn [fst snd] in *.
+        apply map_some_inj in Hp. subst ks'. rewrite Hs. cbn [bind fst]. exists s'. split; [reflexivity|exact HI'].
+    - rewrite <- Hc. destruct (N.leb_spec (cnt s + n) max_len) as [E'|E']; [|lia].
+      exists s. split; [reflexivity|exact HI].
+  Qed.
+
+  Lemma add_allf_sim ts : forall fuel s l,
+    Inv hash s l -> (length l <= fuel)%nat ->
+    match s_add_all l ts with
+    | None => add_allf hash fuel s ts = Undef
+    | Some l' => exists s', add_allf hash fuel s ts = Ok s' /\ Inv hash s' l'
+    end.
+  Proof.
+    induction ts as [|t ts IH]; intros fuel s l HI Hf; cbn [s_add_all add_allf].
+    - exists s. split; [reflexivity|exact HI].
+    - pose proof (internf_sim fuel s l t HI Hf) as H. destruct (s_intern l t) as [p|] eqn:E.
+      + destruct H as [s' [Hs HI']]. rewrite Hs. cbn [bind fst]. apply IH; [exact HI'|].
+        pose proof (s_intern_len l t p E). lia.
+      + rewrite H. reflexivity.
+  Qed.
+
+  Lemma init_constf_sim fuel predef s l :
+    Inv hash s l -> (length l <= fuel)%nat ->
+    match s_init_const predef l with
+    | None => init_constf hash fuel predef s = Undef
+    | Some l' => exists s', init_constf hash fuel predef s = Ok s' /\ Inv hash s' l'
+    end.
+  Proof.
+    intros HI Hf. unfold init_constf, s_init_const.
+    pose proof (presizef_sim fuel s l (N.of_nat (length predef)) HI Hf) as H.
+    destruct (s_presize l (N.of_nat (length predef))) as [l1|] eqn:E.
+    - destruct H as [s1 [Hs HI1]]. rewrite Hs. cbn [bind]. apply add_allf_sim; [exact HI1|].
+      unfold s_presize in E. destruct (size l + N.of_nat (length predef) <=? max_len); [|discriminate].
+      injection E as <-. exact Hf.
+    - rewrite H. reflexivity.
+  Qed.
+
+  Lemma dstepf_sim fuel predef s l o :
+    Inv hash s l -> (length l <= fuel)%nat ->
+    match sstep predef l o with
+    | None => dstepf hash fuel predef s o = Undef
+    | Some p => exists s', dstepf hash fuel predef s o = Ok (s', snd p) /\ Inv hash s' (fst p) /\
+                           (length (fst p) <= next_fuel predef fuel o)%nat
+    end.
+  Proof.
+    intros HI Hf. destruct o as [t|t|i|n|]; cbn [sstep dstepf next_fuel].
+    - pose proof (internf_sim fuel s l t HI Hf) as H. destruct (s_intern l t) as [p|] eqn:E; [|exact H].
+      destruct H as [s' [Hs HI']]. exists s'. split; [exact Hs|]. split; [exact HI'|].
+      pose proof (s_intern_len l t p E). lia.
+    - pose proof (stepf_sim fuel s l (OFind t) HI Hf I) as H. cbn [spec_step] in H.
+      rewrite index_of_id_of in H. destruct H as [s' [ks' [Hs [Hp HI']]]]. cbn [fst snd] in *.
+      apply map_some_inj in Hp. subst ks'. exists s'. split; [exact Hs|]. split; [exact HI'|exact Hf].
+    - pose proof (stepf_sim fuel s l (OAt i) HI Hf I) as H. cbn [spec_step] in H.
+      rewrite lookup_id_text_of in H. destruct (text_of i l) as [t|]; [|exact H].
+      destruct H as [s' [ks' [Hs [Hp HI']]]]. cbn [fst snd] in *.
+      apply map_some_inj in Hp. subst ks'. exists s'. split; [exact Hs|]. split; [exact HI'|exact Hf].
+    - pose proof (presizef_sim fuel s l n HI Hf) as H. destruct (s_presize l n) as [l'|] eqn:E.
+      + destruct H as [s' [Hs HI']]. rewrite Hs. cbn [bind fst snd]. exists s'. split; [reflexivity|]. split; [exact HI'|].
+        unfold s_presize in E. destruct (size l + n <=? max_len); [|discriminate]. injection E as <-. exact Hf.
+      + rewrite H. reflexivity.
+    - pose proof (stepf_sim fuel s l OClear HI Hf I) as H. cbn [spec_step] in H.
+      destruct H as [s1 [ks1 [Hs [Hp HI1]]]]. cbn [fst snd] in *.
+      change (@nil (option N)) with (map (@Some N) []) in Hp. apply map_some_inj in Hp. subst ks1.
+      rewrite Hs. cbn [bind fst].
+      pose proof (init_constf_sim fuel predef s1 [] HI1 (Nat.le_0_l fuel)) as H.
+      destruct (s_init_const predef []) as [l'|] eqn:E.
+      + destruct H as [s' [Hs' HI']]. rewrite Hs'. cbn [bind fst snd]. exists s'. split; [reflexivity|]. split; [exact HI'|].
+        pose proof (s_init_const_len predef [] l' E). cbn [length] in *. lia.
+      + rewrite H. reflexivity.
+  Qed.
+
+  Lemma trace_acc_ok predef : forall ops fuel s l acc,
+    Inv hash s l -> (length l <= fuel)%nat ->
+    map fst (trace_acc hash predef fuel s ops acc) = rev (map fst acc) ++ spec_from predef l ops.
+  Proof.
+    induction ops as [|o ops IH]; intros fuel s l acc HI Hf; cbn [trace_acc spec_from].
     - rewrite rev_append_rev, !app_nil_r, map_rev. reflexivity.
-    - destruct (dstep hash predef s o) as [p| |].
-      + rewrite IH. cbn [map fst rev]. rewrite <- app_assoc. reflexivity.
-      + rewrite rev_append_rev, map_app, map_rev. reflexivity.
-      + rewrite rev_append_rev, map_app, map_rev. reflexivity.
+    - pose proof (dstepf_sim fuel predef s l o HI Hf) as H. destruct (sstep predef l o) as [p|].
+      + destruct H as [s' [Hs [HI' Hf']]]. rewrite Hs. cbn [fst snd].
+        rewrite (IH _ s' (fst p) _ HI' Hf'). cbn [map fst rev]. rewrite <- app_assoc.
+        rewrite (inv_cnt s' (fst p) HI'). reflexivity.
+      + rewrite H. rewrite rev_append_rev, map_app, map_rev. reflexivity.
   Qed.
 
   Theorem run_trace_ok predef ops : map fst (run_trace hash predef ops) = run hash predef ops.
   Proof.
-    unfold run_trace, run. destruct (start hash predef) as [s| |]; [|reflexivity|reflexivity].
-    rewrite trace_acc_ok. reflexivity.
+    rewrite run_refines_spec. unfold run_trace, spec_run, startf.
+    pose proof (init_constf_sim O predef init [] (ex_intro _ [] (inv_init hash)) (Nat.le_refl 0)) as H.
+    unfold s_start. destruct (s_init_const predef []) as [l|] eqn:E.
+    - destruct H as [s [Hs HI]]. rewrite Hs.
+      rewrite (trace_acc_ok predef ops (length predef) s l [] HI); [reflexivity|].
+      pose proof (s_init_const_len predef [] l E). cbn [length] in *. lia.
+    - rewrite H. reflexivity.
+  Qed.
+
+  (* the size the driver prints for the fresh dictionary is the specification's *)
+  Lemma start_shape_ok predef :
+    fst (start_shape hash predef) = match s_start predef with Some l => size l | None => 0 end.
+  Proof.
+    unfold start_shape, startf, s_start.
+    pose proof (init_constf_sim O predef init [] (ex_intro _ [] (inv_init hash)) (Nat.le_refl 0)) as H.
+    destruct (s_init_const predef []) as [l|].
+    - destruct H as [s [Hs HI]]. rewrite Hs. cbn [fst]. apply inv_cnt, HI.
+    - rewrite H. reflexivity.
   Qed.
 End Main.
 
